@@ -48,7 +48,7 @@ inductive Site where
   | swapSectors | trimSectors | updateSector | sectorRoot
   | rpcSectorRoots | rpcRead | rpcWrite | rpcFormContract
   | validateStdRevision | recorderFlush | processFundAccountPayment
-  | handleRPCRenew | rpcRenewAndClearContract
+  | handleRPCRenew | rpcRenewAndClearContract | rollback
 deriving DecidableEq, Repr
 
 /-- the name the harness derives from the Go stack trace -/
@@ -69,6 +69,7 @@ def Site.name : Site → String
   | .validateStdRevision => "validateStdRevision" | .recorderFlush => "registryAccessRecorder.Flush"
   | .processFundAccountPayment => "processFundAccountPayment"
   | .handleRPCRenew => "handleRPCRenew" | .rpcRenewAndClearContract => "rpcRenewAndClearContract"
+  | .rollback => "Usage.Sub"   -- rollback() → Budget.Refund → accounts.Usage.Sub (innermost hostd frame of the panic)
 
 /-- Which repairs the code under test contains.  `false` = the guard as written
 in the pinned snapshot. -/
@@ -97,6 +98,9 @@ structure Fixes where
   regRecorder : Bool := false
   /-- `processFundAccountPayment` rejects a transfer smaller than `FundAccountCost` instead of `Sub`-ing it -/
   fundCost : Bool := false
+  /-- not a repair but the shape of `programExecutor.rollback`: it refunds `pe.usage.StorageRevenue`, the
+  bucket the budget really holds (`false`: it refunds `pe.cost.Storage`, the announced FailureRefund) -/
+  rollbackRefundsUsage : Bool := true
 deriving DecidableEq, Repr
 
 /-- every repair applied -/
@@ -131,6 +135,7 @@ def Fixes.enable (f : Fixes) (name : String) : Option Fixes :=
   | "8" | "v2FormKeyLen" => some { f with v2FormKeyLen := true }
   | "9" | "regRecorder" => some { f with regRecorder := true }
   | "10" | "fundCost" => some { f with fundCost := true }
+  | "refundAnnounced" => some { f with rollbackRefundsUsage := false }   -- model of the variant that refunds cost.Storage
   | "revisionSum" => some { f with revisionSum := true }
   | "all" => some Fixes.all
   | "none" => some Fixes.none
@@ -158,6 +163,9 @@ structure Acc where
   spent   : Nat := 0   -- total usage incl. refundable storage
   storage : Nat := 0   -- refundable part (usage.StorageRevenue)
   paid    : Nat := 0   -- number of pay steps that succeeded
+  cstorage : Nat := 0  -- pe.cost.Storage: the storage part of the instruction costs, announced as FailureRefund
+                       -- (maintained by `execInstrs`; differs from `storage` after a paid registry instruction,
+                       -- whose storage cost is booked as RegistryRead/RegistryWrite usage)
 deriving Repr, DecidableEq
 
 inductive Out where
@@ -451,7 +459,10 @@ total, `storage` the refundable part) -/
 structure CInstr where
   i : Instr
   cost : Nat := 0
+  /-- part of `cost` booked as usage.StorageRevenue (what rollback() refunds) -/
   storage : Nat := 0
+  /-- cost.Storage of the instruction (what the host announces as FailureRefund) -/
+  cstorage : Nat := 0
 deriving Repr
 
 /-- observable host state the property talks about -/
@@ -469,6 +480,11 @@ inductive ExecOut where
   | panic (k : Nat) (s : Site)
 deriving Repr, DecidableEq
 
+/-- `payForExecution` also adds the instruction's cost to `pe.cost`: when the instruction was paid for
+(`a'.paid` grew) its `cost.Storage` joins the announced failure refund -/
+def bookCost (a a' : Acc) (ci : CInstr) : Acc :=
+  if a.paid < a'.paid then { a' with cstorage := a'.cstorage + ci.cstorage } else a'
+
 /-- `executeProgram`: instructions in order on the updater's private copy -/
 def execInstrs (f : Fixes) (pdLen : Nat) (rd : Nat → Nat) (prices : Prices) (duration : Nat) :
     Acc → List Nat → Nat → List (Option Nat) → List CInstr → ExecOut
@@ -477,8 +493,8 @@ def execInstrs (f : Fixes) (pdLen : Nat) (rd : Nat → Nat) (prices : Prices) (d
       let e : Env := { pdLen, rd, prices, duration, cost := ci.cost, storage := ci.storage }
       match run a (instrSteps f e roots.length ci.i) with
       | .panic s => .panic k s
-      | .reject a' => .failed k a' outs.reverse
-      | .pass a' => execInstrs f pdLen rd prices duration a' (applyRoots e roots (1000 + k) ci.i) (k + 1)
+      | .reject a' => .failed k (bookCost a a' ci) outs.reverse
+      | .pass a' => execInstrs f pdLen rd prices duration (bookCost a a' ci) (applyRoots e roots (1000 + k) ci.i) (k + 1)
                       (outLen e roots.length ci.i :: outs) rest
 
 /-- how the renter pays and finalises -/
@@ -526,12 +542,17 @@ def admitted (s : HostState) (r : Request) : Bool :=
   decide (r.pay = .ok) && decide (r.budget ≤ s.balance) && decide (r.initCost ≤ r.budget) &&
   !((needsContract r.prog || needsFinalization r.prog) && !r.hasContract)
 
+/-- what `rollback()` hands to `budget.Refund` as StorageRevenue -/
+def refundOf (f : Fixes) (a : Acc) : Nat := if f.rollbackRefundsUsage then a.storage else a.cstorage
+
 /-- `Execute` after `executeProgram` returned: `rollback()` or `commit()` -/
 def settle (f : Fixes) (s : HostState) (r : Request) : ExecOut → Outcome × HostState
   | .panic k site => (.panic k site, s)
   | .failed k a outs =>
-      -- rollback(): updater closed, storage refunded, the rest committed
-      (.failed k outs, { s with balance := s.balance - (a.spent - a.storage) })
+      -- rollback(): updater closed, storage refunded (budget.Refund panics when asked for more than the
+      -- StorageRevenue bucket holds), the rest committed
+      if refundOf f a ≤ a.storage then (.failed k outs, { s with balance := s.balance - (a.spent - refundOf f a) })
+      else (.panic k .rollback, s)
   | .done a roots outs =>
       if needsFinalization r.prog then
         match r.fin with
